@@ -161,7 +161,29 @@ fn predicate_expr(input: &str) -> IResult<&str, model::PredicateExpr> {
 ///
 /// [[14] Expr](https://triple-underscore.github.io/XML/xpath10-ja.html#NT-Expr)
 fn expr(input: &str) -> IResult<&str, model::Expr> {
-    or_expr(input)
+    // Parentheses, predicates and function arguments nest through this production.  The parser and
+    // the evaluator are recursive, so the nesting depth is bounded: a deeper expression is a
+    // syntax error instead of a stack overflow.
+    let depth = DEPTH.with(|d| {
+        d.set(d.get() + 1);
+        d.get()
+    });
+    let result = if depth > MAX_DEPTH {
+        Err(nom::Err::Failure(nom::error::Error::new(
+            input,
+            nom::error::ErrorKind::TooLarge,
+        )))
+    } else {
+        or_expr(input)
+    };
+    DEPTH.with(|d| d.set(d.get() - 1));
+    result
+}
+
+const MAX_DEPTH: usize = 128;
+
+thread_local! {
+    static DEPTH: std::cell::Cell<usize> = const { std::cell::Cell::new(0) };
 }
 
 /// VariableReference | '(' Expr ')' | Literal | Number | FunctionCall
